@@ -19,7 +19,7 @@ shard() {
   ln -s "$VERIF/.venv" $MX/verif_$k/.venv
   declare -A EXTRA
   EXTRA[C01]="C12 C11 C15 C04 C18"; EXTRA[C03]="C01 C11 C17"; EXTRA[C11]="C01 C12 C15"; EXTRA[C12]="C01 C15"; EXTRA[C17]="C04"
-  EXTRA[C04]="C17 C11"; EXTRA[C14]="C05"; EXTRA[C02]="C06 C10"; EXTRA[C08]="C16 C17"; EXTRA[C09]="C14"; EXTRA[C10]="C18 C02"
+  EXTRA[C04]="C17 C11 C01"; EXTRA[C14]="C05"; EXTRA[C02]="C06 C10"; EXTRA[C08]="C16 C17"; EXTRA[C09]="C14"; EXTRA[C10]="C18 C02"
   export STBEM_REPO=$MX/repo_$k TRY_OUT=$MX/try_$k.out
   awk -v k="$k" -v n="$SHARDS" 'NR % n == k' $MX/all.txt | while read m; do
     prop=${m%%-*}
